@@ -154,6 +154,43 @@ def emit(c):
     return "\n".join(L)
 
 
+def write_split_header(repo, outdir):
+    """ec_split.h = liblcb's include/math/elliptic_curve.h, text unchanged, plus two #include lines:
+    one in front of the first projective ladder function (ec_point_proj_bin_mult) and one in front of the first
+    affine ladder function (ec_point_affine_bin_mult).  The included files redirect - from that line on - the
+    point operations defined ABOVE the line to their specification stubs, so that the ladder / window / comb /
+    JSF / NAF code below runs as written while the point operations it calls are the contract that the
+    group-law jobs (C02 grp.c) establish for the real ones.  Same effect as `goto-instrument --replace-calls`
+    (DESIGN 1.3 mechanism ii), which the driver has no step for.  Fails (-> check fails closed) if the anchors move."""
+    src = os.path.join(repo, "include", "math", "elliptic_curve.h")
+    with open(src) as f:
+        lines = f.read().split("\n")
+    anchors = [("ec_point_proj_bin_mult(ec_point_proj_p point, bn_p d, ec_curve_p curve) {",
+                '#include "common/ec/ec_ptops_spec.h"\t/* inserted by gen_curve.py */'),
+               ("ec_point_affine_bin_mult(ec_point_p point, bn_p d, ec_curve_p curve) {",
+                '#include "common/ec/ec_ptops_affine_redirect.h"\t/* inserted by gen_curve.py */')]
+    for anchor, inc in anchors:
+        idx = [i for i, l in enumerate(lines) if l == anchor]
+        assert len(idx) == 1, "anchor not found exactly once: " + anchor
+        i = idx[0]
+        assert lines[i - 1] == "static inline int", "unexpected text in front of " + anchor
+        lines.insert(i - 1, inc)
+    # every redirected operation must be DEFINED above its include line and only CALLED below it
+    text = "\n".join(lines)
+    p1 = text.index(anchors[0][1])
+    p2 = text.index(anchors[1][1])
+    for fn in ("ec_point_proj_add", "ec_point_proj_sub", "ec_point_proj_dbl_n", "ec_point_proj_add_mix",
+               "ec_point_proj_sub_mix", "ec_point_proj_norm", "ec_point_proj_export_affine"):
+        d = text.index("\n" + fn + "(")
+        assert d < p1 and text.find("\n" + fn + "(", d + 1) < 0, fn
+    for fn in ("ec_point_affine_add", "ec_point_affine_sub", "ec_point_affine_dbl_n"):
+        d = text.index("\n" + fn + "(")
+        assert p1 < d < p2 and text.find("\n" + fn + "(", d + 1) < 0, fn
+    with open(os.path.join(outdir, "ec_split.h"), "w") as f:
+        f.write("/* GENERATED from %s by harness/common/ec/gen_curve.py: two #include lines inserted, nothing else. */\n" % src)
+        f.write(text)
+
+
 def write(outdir):
     parts = ["/* GENERATED by harness/common/ec/gen_curve.py - synthetic curves, whole groups enumerated with Python integers. */",
              "#ifndef EC_TABLES_H\n#define EC_TABLES_H\n#include <stdint.h>"]
@@ -166,6 +203,7 @@ def write(outdir):
 
 if __name__ == "__main__":
     write(sys.argv[1])
+    write_split_header(sys.argv[2] if len(sys.argv) > 2 else "/repo", sys.argv[1])
     for cid in sorted(CURVES):
         c = build(cid)
         print(cid, {k: c[k] for k in ("p", "a", "b", "h", "n", "ntot", "G", "a_m3")})
